@@ -96,13 +96,13 @@ def scenarios(ctx: Ctx, res: Result):
 def run(ctx: Ctx) -> Result:
     res = Result()
     scs = [ctx.replay['replay']] if ctx.replay is not None else scenarios(ctx, res)
-    run_scenarios(ctx, scs, res, SIGS, extra=flags_oracle)
+    run_scenarios(ctx, scs, res, SIGS, extra=flags_oracle, at_quiescence='check_restarted')
     return res
 
 
 def search(ctx: Ctx) -> Result:
     res = Result()
-    run_scenarios(Ctx(ctx.prop, ctx.tier, ctx.seed, ctx.rng), (crash_schedule(ctx.rng) for _ in range(500)), res, SIGS, extra=flags_oracle)
+    run_scenarios(Ctx(ctx.prop, ctx.tier, ctx.seed, ctx.rng), (crash_schedule(ctx.rng) for _ in range(500)), res, SIGS, extra=flags_oracle, at_quiescence='check_restarted')
     res.disagreements = []
     return res
 
